@@ -329,7 +329,8 @@ const char *resolve_module_path(const char *module_path, const char *current_fil
         strncmp(module_path, "src/", 4) == 0 ||
         strncmp(module_path, "src_nano/", 9) == 0 ||
         strncmp(module_path, "std/", 4) == 0 ||
-        strncmp(module_path, "stdlib/", 7) == 0) {
+        strncmp(module_path, "stdlib/", 7) == 0 ||
+        strncmp(module_path, "tests/", 6) == 0) {
         /* Try to find project root by walking up from current_file */
         if (current_file) {
             char current_dir[1024];
@@ -360,7 +361,8 @@ const char *resolve_module_path(const char *module_path, const char *current_fil
                                 return strdup(test_path);
                             }
                         }
-                        break;
+                        /* Not under this directory (e.g. modules/, which has an "examples"
+                         * subdirectory, is not the project root): keep walking up */
                     }
                     
                     /* Try examples/ directory */
@@ -379,7 +381,8 @@ const char *resolve_module_path(const char *module_path, const char *current_fil
                                 return strdup(test_path);
                             }
                         }
-                        break;
+                        /* Not under this directory (e.g. modules/, which has an "examples"
+                         * subdirectory, is not the project root): keep walking up */
                     }
                     
                     /* Move up one directory */
